@@ -34,6 +34,8 @@ type caseA struct {
 	Sidecar   bool   `json:"sidecar"`
 	Protect   string `json:"protect"` // hold, compliance, governance, default-governance, default-compliance
 	BobBypass bool   `json:"bob_bypass"` // the initial policy grants bob s3:BypassGovernanceRetention
+	NoPolicy  bool   `json:"no_policy,omitempty"` // the bucket starts without any bucket policy
+	Older     bool   `json:"older,omitempty"`     // versioned buckets: the protected version is not the current one
 	Ops       []op   `json:"ops"`
 }
 
@@ -137,7 +139,11 @@ func execA(c caseA) (st stats, err error) {
 		}
 	}
 	bypass := map[string]bool{"bob": c.BobBypass}
-	if r := root.MustCall("PUT", "/"+b, s3c.Q("policy", ""), nil, []byte(policyDoc(b, bypass))); !r.OK() {
+	if c.NoPolicy {
+		// the default state of a bucket: no policy at all, access by ACL (alice owns the bucket); nobody holds
+		// s3:BypassGovernanceRetention
+		bypass = map[string]bool{}
+	} else if r := root.MustCall("PUT", "/"+b, s3c.Q("policy", ""), nil, []byte(policyDoc(b, bypass))); !r.OK() {
 		return st, fmt.Errorf("SETUP: policy: %v %s", r, policyDoc(b, bypass))
 	}
 	data := []byte("precious data that must survive " + b)
@@ -147,6 +153,18 @@ func execA(c caseA) (st stats, err error) {
 		return st, fmt.Errorf("SETUP: put: %v", pr)
 	}
 	vid := pr.Header.Get("x-amz-version-id")
+	vq := func(q []s3c.KV) []s3c.KV {
+		if c.Versioned && vid != "" {
+			return append(q, s3c.KV{K: "versionId", V: vid})
+		}
+		return q
+	}
+	if c.Older && c.Versioned && vid != "" {
+		// the version that will be protected is not the current one: an unprotected newer version sits on top of it
+		if r := root.MustCall("PUT", path, nil, nil, []byte("a newer, unprotected version")); !r.OK() {
+			return st, fmt.Errorf("SETUP: newer version: %v", r)
+		}
+	}
 	ms := &state{}
 	now := time.Now()
 	retXML := func(mode string, until time.Time) []byte {
@@ -154,14 +172,14 @@ func execA(c caseA) (st stats, err error) {
 	}
 	switch c.Protect {
 	case "hold":
-		if r := root.MustCall("PUT", path, s3c.Q("legal-hold", ""), nil, []byte("<LegalHold><Status>ON</Status></LegalHold>")); !r.OK() {
+		if r := root.MustCall("PUT", path, vq(s3c.Q("legal-hold", "")), nil, []byte("<LegalHold><Status>ON</Status></LegalHold>")); !r.OK() {
 			return st, fmt.Errorf("SETUP: legal hold: %v", r)
 		}
 		ms.hold = true
 	case "compliance", "governance":
 		mode := strings.ToUpper(c.Protect)
 		until := now.Add(time.Hour)
-		if r := root.MustCall("PUT", path, s3c.Q("retention", ""), nil, retXML(mode, until)); !r.OK() {
+		if r := root.MustCall("PUT", path, vq(s3c.Q("retention", "")), nil, retXML(mode, until)); !r.OK() {
 			return st, fmt.Errorf("SETUP: retention: %v", r)
 		}
 		ms.mode, ms.until = mode, until
@@ -427,6 +445,8 @@ func TestC10A(t *testing.T) {
 		c.Sidecar = rapid.IntRange(0, 3).Draw(t, "sidecar") == 0
 		c.Protect = rapid.SampledFrom([]string{"hold", "compliance", "governance", "default-governance", "default-compliance"}).Draw(t, "protect")
 		c.BobBypass = rapid.Bool().Draw(t, "bob_bypass")
+		c.NoPolicy = rapid.IntRange(0, 3).Draw(t, "no_policy") == 0
+		c.Older = rapid.IntRange(0, 2).Draw(t, "older") == 0
 		c.Ops = rapid.SliceOfN(opGen(), 1, 10).Draw(t, "ops")
 		ev.Trace("C10A", c)
 		st, err := execA(c)
@@ -441,7 +461,7 @@ func TestC10A(t *testing.T) {
 		if st.RefusedWeakening > 0 {
 			cls = append(cls, "weakening-refused")
 		}
-		ev.Case(fmt.Sprintf("%s|%v|%v|%v|%v", c.Protect, c.Versioned, c.Sidecar, c.BobBypass, c.Ops), st.Accepted > 0 || st.RefusedWeakening > 0, cls...)
+		ev.Case(fmt.Sprintf("%s|%v|%v|%v|%v|%v|%v", c.Protect, c.Versioned, c.Sidecar, c.BobBypass, c.NoPolicy, c.Older, c.Ops), st.Accepted > 0 || st.RefusedWeakening > 0, cls...)
 		ev.Sample("protect:"+c.Protect, 1, c)
 		if err != nil {
 			if strings.HasPrefix(err.Error(), "SETUP") {
